@@ -245,6 +245,10 @@ class Runner:
             for seed_spec in cfg.get("seed", []):
                 self.seed_collection(seed_spec)
             self.audit(set(self.model.colls), full=True, fe="wsgi")
+            self.last = {}
+            self.last_touched = set(self.model.colls)
+            if "git" in self.obs:
+                self.obs_git(None)
             for i, step in enumerate(self.program["steps"]):
                 self.step_no = i
                 self.do_step(step)
@@ -512,7 +516,7 @@ class Runner:
                     self.last["acked"].append(k)
                     self.stats["ack:propset"] += 1
             for k in removes:
-                if resp.prop_status(k) == 200 and k not in [s[0] for s in sets]:
+                if resp.prop_status(k) == 200:
                     if mc is None:
                         self.violation("content", "proppatch-ack-missing", f"PROPPATCH on missing {coll} acknowledged")
                     mc.props.pop(k, None)
@@ -762,6 +766,11 @@ class Runner:
             tag = norm[P_CTAG]
             hist = self.tag_hist[(coll, mc._inc)]
             entry = (mc.content_key(), mc.epoch, self.coll_writes[coll], tag, self.step_no)
+            # different contents => different tags, also across incarnations of the same URL
+            for inc in range(1, mc._inc):
+                for ck, ep, wr, t, sn in self.tag_hist.get((coll, inc), ()):
+                    if ck != entry[0] and t == tag:
+                        self.violation("ctag", "different-content-same-tag", f"{coll}: step {sn} (before the collection was deleted and re-created) and step {self.step_no} have different members/contents but the same tag {tag}")
             for ck, ep, wr, t, sn in hist:
                 if ck != entry[0] and t == tag:
                     self.violation("ctag", "different-content-same-tag", f"{coll}: steps {sn} and {self.step_no} have different members/contents but the same tag {tag}")
@@ -772,6 +781,137 @@ class Runner:
                 if ck == entry[0] and wr != entry[2] and sn < self.step_no:
                     self.stats["ctag:returned-to-earlier-content"] += 1
             hist.append(entry)
+
+
+    # -- C09: git audit ---------------------------------------------------------------
+    def git(self, fs, *args, stdin=None, ok=(0,)):
+        envv = dict(os.environ, GIT_OPTIONAL_LOCKS="0", GIT_CONFIG_NOSYSTEM="1", HOME=self.world.scratch, LC_ALL="C", GIT_TERMINAL_PROMPT="0")
+        p = subprocess.run(["git", "-C", fs] + list(args), input=stdin, stdout=subprocess.PIPE, stderr=subprocess.PIPE, env=envv)
+        self.stats["git-processes"] += 1
+        return p.returncode, p.stdout, p.stderr
+
+    def git_state(self, coll, mc):
+        """(chain [(commit, parents)], tree {name: sha}) of a collection's repository."""
+        fs = self.world.fs_path(coll)
+        if not (os.path.isdir(os.path.join(fs, ".git")) or os.path.isfile(os.path.join(fs, "HEAD"))):
+            self.violation("git", "not-a-repository", f"{coll}: {fs} is not a git repository")
+        rc, out, err = self.git(fs, "rev-parse", "-q", "--verify", "HEAD")
+        chain = []
+        if rc != 0:
+            out = b""  # unborn branch: no commits yet
+        else:
+            rc, out, err = self.git(fs, "rev-list", "--parents", "HEAD")
+        if rc == 0 or not out and not err:
+            for ln in out.decode().splitlines():
+                parts = ln.split()
+                chain.append((parts[0], parts[1:]))
+        elif b"unknown revision" in err or b"bad revision" in err or b"ambiguous argument" in err:
+            chain = []
+        else:
+            self.violation("git", "rev-list-failed", f"{coll}: git rev-list failed: {err[:300]!r}")
+        tree = {}
+        if chain:
+            rc, out, err = self.git(fs, "ls-tree", "-r", "-z", "HEAD")
+            if rc != 0:
+                self.violation("git", "ls-tree-failed", f"{coll}: git ls-tree failed: {err[:300]!r}")
+            for ent in out.split(b"\0"):
+                if not ent:
+                    continue
+                meta, name = ent.split(b"\t", 1)
+                mode, typ, sha = meta.split()
+                tree[name.decode("utf-8")] = (typ.decode(), sha.decode())
+        return chain, tree
+
+    def obs_git(self, step):
+        full = step is None or step.get("op") == "RESTART"
+        prev = self.git_heads
+        new = {}
+        for coll, mc in self.model.colls.items():
+            inc = getattr(mc, "_ginc", None)
+            if inc is None:
+                self.ginc = getattr(self, "ginc", 0) + 1
+                mc._ginc = inc = self.ginc
+            fs = self.world.fs_path(coll)
+            chain, tree = self.git_state(coll, mc)
+            new[(coll, inc)] = (chain, tree)
+            # linear history
+            for i, (c, parents) in enumerate(chain):
+                if len(parents) > 1:
+                    self.violation("git", "merge-commit", f"{coll}: commit {c} has {len(parents)} parents")
+                if i + 1 < len(chain):
+                    if parents != [chain[i + 1][0]]:
+                        self.violation("git", "non-linear-history", f"{coll}: commit {c} has parents {parents}, expected [{chain[i + 1][0]}]")
+                elif parents:
+                    self.violation("git", "dangling-parent", f"{coll}: oldest listed commit {c} has parents {parents}")
+            old = prev.get((coll, inc))
+            touched = coll in self.last_touched
+            if old is not None:
+                ochain, otree = old
+                oids = [c for c, _ in ochain]
+                nids = [c for c, _ in chain]
+                if oids and nids[len(nids) - len(oids):] != oids:
+                    self.violation("git", "history-rewritten", f"{coll}: previous history {oids[:3]}.. is not a suffix of the new history {nids[:4]}..")
+                added = len(nids) - len(oids)
+                tree_changed = otree != tree
+                last = self.last
+                acked_here = bool(last.get("ack")) and last.get("coll") == coll
+                if not acked_here:
+                    if added != 0 or tree_changed:
+                        self.violation("git", "commit-without-acknowledged-change", f"{coll}: {added} commit(s) added / tree changed={tree_changed} by step {step and step.get('op')} that was not an acknowledged change of this collection")
+                else:
+                    maxc = 1
+                    if last.get("op") == "PROPPATCH":
+                        maxc = max(1, len(last.get("acked", [])))
+                    if tree_changed and not (1 <= added <= maxc):
+                        self.violation("git", "wrong-commit-count", f"{coll}: acknowledged {last.get('op')} changed the tree but added {added} commits (expected 1..{maxc})")
+                    if not tree_changed and added != 0 and not (last.get("op") == "PROPPATCH" and 2 <= added <= maxc):
+                        self.violation("git", "commit-for-noop", f"{coll}: acknowledged {last.get('op')} did not change the tree but added {added} commit(s)")
+                    if tree_changed:
+                        self.stats["git:commit-checked"] += 1
+                    else:
+                        self.stats["git:noop-checked"] += 1
+            # head tree = model members (+ .xandikos)
+            names = {n for n in tree if n != ".xandikos"}
+            if names != set(mc.members):
+                self.violation("git", "tree-membership", f"{coll}: HEAD tree lists {sorted(names)} expected {sorted(mc.members)}")
+            if touched or full or old is None:
+                shas = [(n, tree[n][1]) for n in sorted(names)]
+                if shas:
+                    rc, out, err = self.git(fs, "cat-file", "--batch", stdin="".join(s + "\n" for _, s in shas).encode())
+                    pos = 0
+                    for n, sha in shas:
+                        nl = out.index(b"\n", pos)
+                        hdr = out[pos:nl].split()
+                        size = int(hdr[2])
+                        blob = out[nl + 1 : nl + 1 + size]
+                        pos = nl + 1 + size + 1
+                        m = mc.members[n]
+                        if not same_body(m.raw, blob, n, m):
+                            self.violation("git", "blob-content", f"{coll}/{n}: blob {sha} holds {blob[:200]!r}, expected {m.raw[:200]!r}")
+                        etag = self.cur_etag.get((coll, n))
+                        served = self.seen_etag_body[coll + "/" + n].get(etag)
+                        if served is not None and hashlib.sha1(blob).hexdigest() != served:
+                            self.violation("git", "blob-differs-from-served", f"{coll}/{n}: committed blob differs from the bytes GET serves")
+                if not mc.bare:
+                    rc, out, err = self.git(fs, "status", "--porcelain", "-z", "--untracked-files=all", "--ignore-submodules=none")
+                    if rc != 0:
+                        self.violation("git", "status-failed", f"{coll}: git status failed: {err[:300]!r}")
+                    for ent in out.split(b"\0"):
+                        if not ent:
+                            continue
+                        code, path = ent[:2].decode(), ent[3:].decode("utf-8", "replace")
+                        if code == "??":
+                            top = path.split("/", 1)[0]
+                            if coll + "/" + top in self.model.colls:
+                                continue  # a nested collection lives in the parent's working tree
+                        self.violation("git", "status-not-clean", f"{coll}: git status reports {code!r} {path!r}")
+                    self.stats["git:status-checked"] += 1
+                rc, out, err = self.git(fs, "fsck", "--strict", "--no-progress")
+                msgs = [ln for ln in (out + err).decode("utf-8", "replace").splitlines() if ln and not ln.startswith(("dangling ", "notice:", "Checking "))]
+                if rc != 0 or msgs:
+                    self.violation("git", "fsck", f"{coll}: git fsck exit {rc}: {msgs[:5]}")
+                self.stats["git:fsck-checked"] += 1
+        self.git_heads = new
 
     # -- the content audit (C01 oracle) ---------------------------------------
     LIST_PROPS = [P_ETAG, P_RT]
